@@ -186,7 +186,10 @@ func (s *c06State) execC30(f []string, t0 int64) (string, bool) {
 
 // ---- generator -----------------------------------------------------------------
 
-// expiry tokens: times relative to the case base with >= 2 s margins, plus 0, epoch, pre-epoch.
+// expiry tokens: times relative to the case base, plus 0, epoch, pre-epoch.  Past tokens may be
+// arbitrarily close to the base (every evaluation happens after the base, whatever the machine
+// load: 50 ms and 1 µs before it must already count as expired); future tokens are >= 20 s away
+// unless a corpus case brackets them with waits.
 // `i` keeps the expiries of different keys distinct (the index sort is not stable).
 func c30Exp(rng *rand.Rand, i int) string {
 	d := int64(i) * 1000003
@@ -194,11 +197,14 @@ func c30Exp(rng *rand.Rand, i int) string {
 	case 0, 1, 2:
 		return "b" + strconv.FormatInt(-3600000000000+d, 10) // an hour ago
 	case 3:
-		return "b" + strconv.FormatInt(-2500000000+d, 10) // 2.5 s ago
+		if rng.Intn(2) == 0 {
+			return "b" + strconv.FormatInt(-1000-d, 10) // a microsecond (and a bit) before the base
+		}
+		return "b" + strconv.FormatInt(-50000000-d, 10) // 50 ms before the base
 	case 4, 5, 6:
 		return "b" + strconv.FormatInt(3600000000000+d, 10) // in an hour
 	case 7:
-		return "b" + strconv.FormatInt(2500000000+d, 10) // in 2.5 s
+		return "b" + strconv.FormatInt(20000000000+d, 10) // in 20 s
 	case 8:
 		return "a" + strconv.FormatInt(1000000000+d, 10) // 1970 + 1 s
 	case 9:
@@ -254,6 +260,10 @@ func c30Op(rng *rand.Rand, persistent bool) string {
 		if rng.Intn(4) == 0 {
 			return "patchexp 0 " + c06Pick(rng, []string{"0", "1"}) + "|" + c06Pick(rng, c06Users) + "|0|||1"
 		}
+		// … or a patch that leaves ExpiredAt alone: the claimed records stay expired and stay indexed
+		if rng.Intn(3) == 0 {
+			return "patchexp " + c06Pick(rng, []string{"0", "1", "2"}) + " 0|" + c06Pick(rng, []string{"u7", "u8", ""}) + "|0|" + c06Pick(rng, []string{"u7", "u8"}) + "||0"
+		}
 		c30Uniq++
 		return "patchexp 1 " + c30Meta(rng, 10+c30Uniq)
 	case r < 72:
@@ -287,8 +297,15 @@ var c30Corpus = []c06CorpusCase{
 	// claim paths with limits, oldest first; patch-expired slides the expiry into the future
 	{[]string{"mem", "p1"}, []string{"set 11 k0|bytes:c70080|||||b-3600000000000 k1|bytes:c70080|||||b-3500000000000 k2|bytes:c70080|||||b-3400000000000 k3|i64:1|||||b-3300000000000 k4|bytes:c70080|||||b3600000000000",
 		"patchexp 2 1|u1|0||b7200000000000|0", "getidx asc 0 0", "patchexp 0 0||0|||1", "getall", "shiftexp 1", "shiftexp 0", "count"}},
-	// an expiry that passes while we wait (>= 2 s margins on both sides)
-	{[]string{"mem"}, []string{"set 11 k0|bytes:c70080|||||b2500000000 k1|bytes:c70080|||||b3600000000000", "shiftexp 0", "fexp lt now", "wait 4500", "fexp lt now", "patchexp 0 0||0||b3600000000000|0", "shiftexp 0", "getall"}},
+	// an expiry that passes while we wait.  Before: 3 s of slack for three requests; after: the second wait ends
+	// >= 50 ms past the expiry whatever the load (sleeps never return early), so "expired" is certain there.
+	{[]string{"mem"}, []string{"set 11 k0|bytes:c70080|||||b3000000000 k1|bytes:c70080|||||b3600000000000", "shiftexp 0", "fexp lt now", "getidx asc 0 0", "wait 3050", "fexp lt now", "patchexp 0 0||0||b3600000000000|0", "shiftexp 0", "getall"}},
+	// reloaded records (every "changed" flag clear) are claimed by a PatchExpiredTreasures that does not touch
+	// ExpiredAt: they are still expired, so every claim path must still find them afterwards
+	{[]string{"p1", "p0"}, []string{"set 11 k0|bytes:c70080|||||b-3600000000000 k1|bytes:c70080|||||b-50000000 k2|bytes:c70080|||||b3600000000000", "close",
+		"patchexp 0 0||0|u7||0", "getall", "getidx asc 0 0", "fexp lt now", "shiftexp 1", "getall", "patchexp 1 0||0|u8||0", "getall", "shiftexp 0", "getall"}},
+	// expiries 50 ms and 1 µs before the base are expired on every path from the first request on
+	{[]string{"mem", "p1"}, []string{"set 11 k0|bytes:c70080|||||b-50000000 k1|i64:1|||||b-1000 k2|bytes:c70080|||||b20000000000", "fexp lt now", "getidx asc 0 0", "patchexp 1 0||0||b3600000000000|0", "shiftexp 0", "getall"}},
 	// reload keeps the expiry and rebuilds the index
 	{[]string{"p1", "p0"}, []string{"set 11 k0|bytes:c70080|||||b-3600000000000 k1|i64:7|||||b3600000000000 k2|i64:0|||||b-3500000000000", "getidx asc 0 0", "close", "getall", "getidx asc 0 0", "fexp lt now", "shiftexp 0", "close", "getall"}},
 	// failed conditional increment moves the expiry in memory only
